@@ -201,7 +201,8 @@ def run_one(ch, ctx):
         raise Violation("grouping", "records-depend-on-block-grouping", detail=dict(info2, n1=len(recs), n2=len(recs2)), scenario=desc)
     ctx.evals += 1
     ctx.steps += 2
-    ctx.ev("c04", info["pair"], sig, len(recs), json.dumps(jsonable(recs), sort_keys=True, default=str)[:2000])
+    ctx.ev_sched("c04", sig)
+    ctx.ev("c04", info["pair"], len(recs), json.dumps(jsonable(recs), sort_keys=True, default=str)[:2000])
     ctx.sample = dict(desc, **info)
     if sc.records:
         ctx.key(json.dumps(desc, sort_keys=True, default=str), info["pair"], sig)
